@@ -155,8 +155,151 @@ def monitor(ctx, rows):
     return seen
 
 
+# ------------------------------------------------------------------ X9: the supervisor composed with the node's own service tree
+X9_HDR = ("From Coq Require Import Uint63.\nFrom Coq Require Import List ZArith Bool Arith String.\n"
+          "From WH Require Import lib.Wire gen.Extracted gen.ExtractedTree model.Supervisor model.NodeTree.\n"
+          "Import ListNotations.\nOpen Scope Z_scope.\n"
+          "(* flags that are NOT set; what is injected (0 nothing, 1 error return, 2 nil return, 3 panic in the runnable's goroutine, 4 panic in a goroutine\n"
+          "   the service spawned, 5 the service calls rootCtxCancel, 6 the root runnable's constructor fails once); the service; is the supervisor created\n"
+          "   with the extracted options (true) or without WithPropagatePanic (false); observed: outcome (0 alive, 2 crashed), starts of the root runnable,\n"
+          "   per service (id, starts, live instances at the end) *)\n"
+          "Definition x9case := (list nat * Z * Z * bool * (Z * nat * list (Z * nat * nat)))%type.\n")
+
+X9_OKDEF = r"""
+Definition tree_with (b : bool) : ntree :=
+  {| nt_propagate := nt_propagate node_tree && b; nt_flags := nt_flags node_tree; nt_prog := nt_prog node_tree; nt_unsupervised := nt_unsupervised node_tree |}.
+Definition inject (k x : Z) : list pev :=
+  if k =? 1 then [PSup (EReturn [x] RErr)] else if k =? 2 then [PSup (EReturn [x] RNil)] else if k =? 3 then [PPanic [x]]
+  else if k =? 4 then [PSpawnPanic x] else if k =? 5 then [PCancelRoot x] else [].
+Definition ok (cs : x9case) : bool :=
+  let '(off, k, x, opt, (out, rs, per)) := cs in
+  let c : cfg := fun f => negb (existsb (Nat.eqb f) off) in
+  let T := tree_with opt in
+  let m := play sup_done_ready_needs_exit T c 60 (inject k x) (sim_init (if k =? 6 then 1 else 0)) in
+  match sm_out m with
+  | PRun s => (out =? 0) && (starts_of m [] =? rs)%nat &&
+              forallb (fun r => let '(y, st, lv) := r in (starts_of m [y] =? st)%nat && (running [y] (p_sup s) =? lv)%nat) per
+  | PCrash _ => out =? 2
+  | _ => false
+  end.
+"""
+
+X9_KIND = {"none": 0, "err": 1, "nil": 2, "panic": 3, "spawnpanic": 4, "cancel": 5, "ctor": 6}
+
+
+def x9_tree_file(ctx, info):
+    import os
+    p = os.path.join(core.BUILD, "tmp", "x9_tree_%s_%d.json" % (ctx.pid, os.getpid()))
+    json.dump({"propagate": info["propagate"], "flags": info["flags"], "services": info["services"], "program": info["program"]}, open(p, "w"), indent=1)
+    return p
+
+
+def x9_case(info):
+    ids = {s["name"]: s["id"] for s in info["services"]}
+
+    def g(r):
+        sc = r["scenario"]
+        off = core.glist("%d%%nat" % info["flags"].index(f) for f in (sc.get("flags_off") or []))
+        per = core.glist("(%d, %d%%nat, %d%%nat)" % (ids[n], r["starts"].get(n, 0), r["live"].get(n, 0)) for n in sorted(ids, key=lambda n: ids[n])) if r["outcome"] == "alive" else "[]"
+        return "(%s, %d, %d, %s, (%d, %d%%nat, %s))" % (off, X9_KIND[sc["kind"]], ids.get(sc.get("svc") or "", 0), core.gbool(sc["opt"] != "off"),
+                                                      0 if r["outcome"] == "alive" else 2 if r["outcome"] == "crash" else 9, r.get("root_starts", 0), per)
+    return g
+
+
+def x9_monitor(ctx, info, rows, pid):
+    """the property statements on the real supervisor running the extracted tree; pid selects the clauses (C18: restart / isolation / instances /
+    cancel; C13: a panic in a supervised service terminates the process)"""
+    group_of = {}
+    for i, st in enumerate(info["program"]):
+        for n in st.get("names") or []:
+            group_of[n] = i
+    fn_of = {s["name"]: s["runnable"] for s in info["services"]}
+    seen = {}
+
+    def report(key, msg, r):
+        if key in seen:
+            seen[key] += 1
+            return
+        seen[key] = 1
+        ctx.problem("monitor", msg, "the extracted service tree on the real supervisor package, scenario %s" % r["scenario"]["sc"], concrete=True,
+                    replay={"scenario": r["scenario"], "observed": {k: r.get(k) for k in ("outcome", "exit", "panic", "starts", "live", "maxlive_fn", "cancelled", "root_starts", "starts_after_cancel")},
+                            "tree": {"propagate": info["propagate"], "program": info["program"]},
+                            "how": "go test -tags verif -run TestVerifX9Tree ./pkg/supervisor with VERIF_X9_TREE=<this tree>"}, key=key)
+
+    for r in rows:
+        sc = r["scenario"]
+        kind, svc = sc["kind"], sc.get("svc") or ""
+        if r["outcome"] == "other":
+            ctx.problem("correspondence", "x9 scenario %s did not produce a result" % sc["sc"], (r.get("note") or "")[-600:])
+            continue
+        if pid == "C13":
+            if kind == "panic" and sc["opt"] == "extracted" and r["outcome"] != "crash":
+                report("premise:panic-not-propagated", "PANIC IN SUPERVISED SERVICE %s DID NOT TERMINATE THE PROCESS: with the supervisor options of node.go the panic was captured "
+                       "(service started %d times, process alive)" % (svc, r["starts"].get(svc, 0)), r)
+            continue
+        if r["outcome"] == "alive":
+            for f, n in (r.get("maxlive_fn") or {}).items():
+                if n > 1:
+                    report("instances:service-function-twice", "TWO LIVE INSTANCES OF ONE SERVICE FUNCTION: runnable #%s of node.go (%s) had %d instances alive at once"
+                           % (f, ", ".join(n2 for n2 in fn_of if str(fn_of[n2]) == f), n), r)
+            enabled = [n for st in info["program"] for n in (st.get("names") or []) if st.get("flag") not in (sc.get("flags_off") or [])]
+            if kind in ("err", "nil") or (kind == "panic" and sc["opt"] == "off"):
+                if svc in enabled and r["starts"].get(svc, 0) < 2:
+                    report("restart:not-restarted", "NOT RESTARTED: service %s %s and was not started again (starts %d)" % (svc, {"err": "returned an error", "nil": "returned nil", "panic": "panicked (capture on)"}[kind], r["starts"].get(svc, 0)), r)
+                for n in enabled:
+                    # X9 (c): the services of the guardian node are isolated from each other (props/C18.v: C18_node_isolation, node_tree_ok: one service per group)
+                    if n != svc and (r["starts"].get(n, 0) != 1 or r["cancelled"].get(n, 0) != 0):
+                        report("isolation:other-service-restarted", "RESTARTED BY ANOTHER SERVICE'S FAILURE: %s was cancelled / started again (starts %d, cancellations %d) when %s failed%s"
+                               % (n, r["starts"].get(n, 0), r["cancelled"].get(n, 0), svc, " (node.go starts them in one supervision group)" if group_of.get(n) == group_of.get(svc) else ""), r)
+                        break
+            if kind == "none":
+                for n in enabled:
+                    if r["starts"].get(n, 0) != 1:
+                        report("tree:not-started-once", "SERVICE %s STARTED %d TIMES in a run without failures" % (n, r["starts"].get(n, 0)), r)
+                        break
+            if kind == "cancel":
+                if any(v for v in r["live"].values()):
+                    report("cancel:still-running", "STILL RUNNING after the root context was cancelled: %s" % sorted(n for n, v in r["live"].items() if v), r)
+                if r.get("starts_after_cancel"):
+                    report("cancel:started-after-cancel", "STARTED AFTER CANCEL: %d runnables were started after the root context had been cancelled" % r["starts_after_cancel"], r)
+        if kind == "spawnpanic" and r["outcome"] != "crash":
+            ctx.problem("correspondence", "x9: a panic in a goroutine spawned by a test service did not crash the child process", json.dumps(r)[:400])
+    return seen
+
+
+def x9_run(ctx, st, pid="C18", only=""):
+    """the extracted tree on the real supervisor, compared with model/NodeTree.v and judged by the monitors"""
+    s = st.get("servicetree") or {}
+    if not s.get("ok"):
+        return          # recorded by run_extract
+    info = s["info"]
+    core.coq_make(["model/NodeTree.vo"])
+    rc, out, trace = core.harness_pkg(ctx, "supervisor", "^TestVerifX9Tree$", env={"VERIF_X9_TREE": x9_tree_file(ctx, info), "VERIF_X9_ONLY": only}, timeout=300)
+    rows = [r for r in core.read_jsonl(trace) if r.get("k") == "x9"]
+    if rc != 0 or not rows:
+        ctx.problem("correspondence", "go harness X9 (service tree)", out[-1500:])
+        return
+    ctx.cov["x9_scenarios"] = len(rows)
+    ctx.cov["x9_outcomes"] = {}
+    for r in rows:
+        k = "%s:%s:%s" % (r["scenario"]["kind"], r["scenario"]["opt"], r["outcome"])
+        ctx.cov["x9_outcomes"][k] = ctx.cov["x9_outcomes"].get(k, 0) + 1
+    ctx.cov["x9_tree"] = {"propagate": info["propagate"], "groups": [st_.get("names") for st_ in info["program"] if st_["op"] == "run"],
+                          "goroutines_outside_the_supervisor": {s_["name"]: s_["spawns"] for s_ in info["services"]}, "unsupervised_in_runNode": info["unsupervised"],
+                          "holds_rootCtxCancel": [s_["name"] for s_ in info["services"] if s_["root_cancel"]]}
+    ctx.evaluations += len(rows)
+    ctx.cov["x9_monitor_classes"] = x9_monitor(ctx, info, rows, pid)
+    good = [r for r in rows if r["outcome"] in ("alive", "crash")]
+    bad = core.run_cases(ctx, "cases_X9_" + pid, good, X9_HDR, "x9case", x9_case(info), X9_OKDEF, nshards=4)
+    if bad:
+        for i in bad[:3]:
+            ctx.problem("correspondence", "model (NodeTree.v) differs from the real supervisor running the extracted tree", "scenario %s: %s" % (good[i]["scenario"]["sc"], json.dumps(good[i])[:500]),
+                        concrete=False, replay={"scenario": good[i]})
+    ctx.cov["x9_mismatches"] = len(bad or [])
+
+
 def run(ctx):
-    core.run_extract(ctx, ["supervisor"])
+    xst = core.run_extract(ctx, ["supervisor", "servicetree"])
     core.coq_prove(ctx, "C18")
     if ctx.tier == "thorough":
         core.coq_thorough_audit(ctx, "C18")
@@ -202,6 +345,7 @@ def run(ctx):
                         concrete=False, replay={"scenario": r})
         ctx.cov["det_scenarios_validated_against_model"] = len(drows)
         ctx.cov["mismatches"] = len(bad)
+    x9_run(ctx, xst)
     ctx.distinct = len(distinct)
     ctx.rule = ("deterministic mode: histories of processSchedule / processDied / processGC / processKill calls (the harness plays the processor and picks the delivery "
                 "order) interleaved with runnables' Signal / RunGroup / return (nil, context error, error, panic) on trees up to depth 3, plus scripted histories; "
@@ -216,4 +360,8 @@ def run(ctx):
         "bounded back-off = cenkalti/backoff ExponentialBackOff with MaxElapsedTime = 0 (caps at MaxInterval * 1.5): library behaviour, trusted; the deterministic harness shrinks the intervals, "
         "the free-running harness observes restarts within a deadline",
         "runnable names are valid and a RunGroup call's names are distinct (Go map keys)",
+        "X9 (node tree): the services below the root runnable are abstract (any supervisor call, any exit, panics); which goroutines a service spawns / whether it recovers / "
+        "whether it holds rootCtxCancel is read by name-based reachability inside the service's own package (calls into other packages are not followed); "
+        "'an unrecovered panic in any goroutine terminates the process' and 'returning from main terminates the process' are the model's rules (Go semantics); "
+        "the harness runs the extracted tree shape with test runnables on the real supervisor package, not the real service functions",
     ]
